@@ -89,6 +89,8 @@ class Stabilizer:
                     self.phases[row] = 1
                 if self.num_qubits != len(pauli) - offset:
                     raise ValueError("Not all paulis in the list have the same length")
+                if not all(character in "IXYZ" for character in pauli[offset:]):
+                    raise ValueError(f"Invalid Pauli string encountered \"{pauli}\"")
                 for col, character in enumerate(pauli[offset:]):
                     self.R[col, row] = int(character in "XY")
                     self.S[col, row] = int(character in "ZY")
